@@ -272,11 +272,24 @@ def doNow (s : St) (id ln extra : Nat) : St × String :=
 
 /-! ### engine.go: txLoop / commitRWTXAndStartNewLocked / Close / restart -/
 
+/-- one tick of the CommitEvery timer. OpenEngine starts `txLoop` only in WaitCommit mode (`DurabilityMode == WaitCommit`)
+    and txLoop commits only as a master, with `waitBinlogCommit = true`: the COMMIT happens once the binlog has announced
+    the engine offset (`binlogWaitDBSync`), until then the call is parked holding the RW connection. In NoWaitCommit mode
+    there is no timer at all: the write transaction is committed only by a must-commit-now write (`doNow`, which also
+    waits for the binlog) or by Close. -/
 def txStep (s : St) : St × String :=
   if busy s || s.q then (s, "bad-op")
-  else if s.repl then (s, "noop")
+  else if s.repl || !s.wait then (s, "noop")
   else if s.dbo ≤ s.ci then ({ s with com := s.tx }, "committed")
   else ({ s with ptx := true }, "pending")
+
+/-- NOT the code (seeded change C17-r3-2): the timer also runs in NoWaitCommit mode, where txLoop passes
+    `waitBinlogCommit = (DurabilityMode == WaitCommit) = false`: it COMMITs without waiting for the binlog. -/
+def txStepNoWaitTimer (s : St) : St × String :=
+  if busy s || s.q then (s, "bad-op")
+  else if s.repl then (s, "noop")
+  else if !s.wait then ({ s with com := s.tx }, "committed")
+  else txStep s
 
 def closeStep (s : St) : St × String :=
   if busy s then (s, "bad-op")
